@@ -84,7 +84,29 @@ def infer_resource(facts, cls='tulz::rwp::Resource'):
     field_map = {mut[0]['name']: 'm_mutex', cvs[0]['name']: 'm_cv', qs[0]['name']: 'm_queue', ops[0]['name']: 'm_activeOp',
                  list(count)[0]: 'm_activeCount', list(nxt)[0]: 'm_idCounter', list(bound)[0]: 'm_upperUnlockBound'}
     entry_map = {e_enum[0]['name']: 'type', e_int[0]['name']: 'upperBound'}
-    return field_map, (entry_cls, entry_map), fn_map, ''
+    # what the integral member of a queue entry holds, by what is stored into it: the ticket counter (an upper bound on the tickets
+    # of the batch) or small constants / increments (the number of requests in the batch)
+    ename = e_int[0]['name']; nxt_name = list(nxt)[0]
+    def mentions_counter(x): return x is not None and any(y.k == 'member' and y.field and y.name == nxt_name and y.d.get('class') == cls for y in x.walk())
+    def is_small(x):
+        while x is not None and x.k == 'cast': x = x.n('sub')
+        return x is not None and x.k == 'int'
+    votes = set()
+    for f in methods:
+        for n in f.nodes():
+            if n.k == 'initlist' and n.d.get('fields') and ename in n.d['fields']:
+                a = n.ns('args'); i = n.d['fields'].index(ename)
+                v = a[i] if i < len(a) else None
+                votes.add('bound' if mentions_counter(v) else ('count' if is_small(v) else '?'))
+            if n.k == 'binop' and n.op in ('=', '+=') and n.n('lhs') is not None and n.n('lhs').k == 'member' and n.n('lhs').field and n.n('lhs').name == ename and n.n('lhs').d.get('class') == entry_cls:
+                v = n.n('rhs')
+                votes.add('bound' if (mentions_counter(v) and n.op == '=') else ('count' if (is_small(v) and n.op == '+=') or (is_small(v) and n.op == '=') else '?'))
+            if n.k == 'unop' and n.op == '++' and n.n('sub') is not None and n.n('sub').k == 'member' and n.n('sub').field and n.n('sub').name == ename and n.n('sub').d.get('class') == entry_cls:
+                votes.add('count')
+    if votes == {'bound'}: rep_ = 'bound'
+    elif votes == {'count'}: rep_ = 'count'
+    else: return None, None, None, f'what the integral member {ename} of a queue entry holds is not recognised (stores: {sorted(votes)})'
+    return field_map, (entry_cls, entry_map, rep_), fn_map, ''
 
 
 def is_identity(*maps):
@@ -93,7 +115,7 @@ def is_identity(*maps):
 
 def renamed_facts(facts, facts_dir, cls, field_map, entry, fn_map):
     """a second Facts view in which the members of `cls` carry their canonical names"""
-    entry_cls, entry_map = entry
+    entry_cls, entry_map = entry[:2]
 
     def tr(d):
         for nid, n in d['exprs'].items():
